@@ -154,6 +154,13 @@ namespace Pistache::Tcp
 
         auto& entry = it->second;
         entry.disable();
+
+        // Nobody waits for this timer any more, but its descriptor is released
+        // only when it expires (handleTimer): let that happen now rather than
+        // after the whole time-out, during which the descriptor would stay open.
+        itimerspec expireNow {};
+        expireNow.it_value.tv_nsec = 1;
+        timerfd_settime(fd, 0, &expireNow, nullptr);
     }
 
     void Transport::handleIncoming(const std::shared_ptr<Peer>& peer)
